@@ -544,11 +544,104 @@ fn sem_build_emb<'a, B: rsdd::builder::sdd::SddBuilder<'a>>(b: &'a B, tt: TT, v:
     r
 }
 
+/// the same long histories in ONE canonical builder with its DEFAULT table sizes: the unique table really grows (at 91 751, 183 501,
+/// 367 002, ... nodes) and clusters get long; every result must denote what TLC printed (C01 / C03) and two results denote the same
+/// function iff they are the same pointer (C02 / C04)
+fn stress_canonical(args: &Args, vecs: &[Value], nv: usize, which: &str) {
+    let mut t = Tally { vectors: vecs.len(), steps: 0, mismatches: 0, bad: vec![] };
+    let mut rng = Rng::new(args.num("seed", 1) ^ 0xb16);
+    let mut configs = 0;
+    rsdd::verif::set_table_capacity(0);
+    rsdd::verif::set_lru_capacity(None);
+    let mut nodes_seen = 0usize;
+    if which == "bdd" {
+        for cache in ["all", "lru"] {
+            configs += 1;
+            let order = rng.perm(nv);
+            let ord = VarOrder::new(&order.iter().map(|v| VarLabel::new_usize(*v)).collect::<Vec<_>>());
+            macro_rules! run {
+                ($b:expr) => {{
+                    let b = $b;
+                    let mut memo = HashMap::new();
+                    let mut canon: HashMap<TT, BddPtr> = HashMap::new();
+                    for v in vecs {
+                        let (tf, tg) = (tt_of(&v["f"]), tt_of(&v["g"]));
+                        t.steps += 1;
+                        let r = guarded(|| {
+                            let f = bdd_build(&b, tf, 0, &order, nv, &mut memo);
+                            let g = bdd_build(&b, tg, 0, &order, nv, &mut memo);
+                            [f, g, b.and(f, g), b.or(f, g), b.negate(f), b.xor(f, g)]
+                        });
+                        let want = [tf, tg, tt_of(&v["conj"]), tt_of(&v["disj"]), !tf & full(nv), (tf ^ tg) & full(nv)];
+                        let ok = match &r {
+                            Ok(ps) => ps.iter().zip(want.iter()).all(|(p, w)| bdd_tt(*p, nv) == *w && *canon.entry(*w).or_insert(*p) == *p),
+                            Err(_) => false,
+                        };
+                        if !ok {
+                            t.mismatches += 1;
+                            if t.bad.len() < 10 {
+                                t.bad.push(json!({"cfg": format!("one RobddBuilder ({cache} cache, default table sizes, order {order:?}) for the whole history"), "vector": v,
+                                    "got": match r { Ok(ps) => json!({"tts": ps.iter().map(|p| bdd_tt(*p, nv)).collect::<Vec<_>>(),
+                                                                      "same_pointer_as_first_seen": ps.iter().zip(want.iter()).map(|(p, w)| canon.get(w).map_or(true, |c| c == p)).collect::<Vec<_>>()}),
+                                                     Err(m) => json!({"panic": m}) }}));
+                            }
+                        }
+                    }
+                    nodes_seen = nodes_seen.max(canon.len());
+                }};
+            }
+            if cache == "all" {
+                run!(RobddBuilder::<AllIteTable<BddPtr>>::new(ord));
+            } else {
+                run!(RobddBuilder::<rsdd::builder::cache::LruIteTable<BddPtr>>::new(ord));
+            }
+        }
+    } else {
+        let labels: Vec<VarLabel> = rng.perm(nv).into_iter().map(VarLabel::new_usize).collect();
+        for (name, vt) in [("right-linear", VTree::right_linear(&labels)), ("even split", VTree::even_split(&labels, 2))] {
+            configs += 1;
+            let bm = CompressionSddBuilder::new(vt);
+            let b = &bm;
+            let mut memo = HashMap::new();
+            let mut canon: HashMap<TT, SddPtr> = HashMap::new();
+            for v in vecs {
+                let (tf, tg) = (tt_of(&v["f"]), tt_of(&v["g"]));
+                t.steps += 1;
+                let r = guarded(|| {
+                    let f = sdd_build(b, tf, 0, nv, &mut memo);
+                    let g = sdd_build(b, tg, 0, nv, &mut memo);
+                    [f, g, b.and(f, g), b.or(f, g), b.negate(f)]
+                });
+                let want = [tf, tg, tt_of(&v["conj"]), tt_of(&v["disj"]), !tf & full(nv)];
+                let ok = match &r {
+                    Ok(ps) => ps.iter().zip(want.iter()).all(|(p, w)| sdd_tt(*p, nv) == *w && *canon.entry(*w).or_insert(*p) == *p),
+                    Err(_) => false,
+                };
+                if !ok {
+                    t.mismatches += 1;
+                    if t.bad.len() < 10 {
+                        t.bad.push(json!({"cfg": format!("one CompressionSddBuilder ({name} vtree, default table sizes) for the whole history"), "vector": v,
+                            "got": match r { Ok(ps) => json!({"tts": ps.iter().map(|p| sdd_tt(*p, nv)).collect::<Vec<_>>(),
+                                                              "same_pointer_as_first_seen": ps.iter().zip(want.iter()).map(|(p, w)| canon.get(w).map_or(true, |c| c == p)).collect::<Vec<_>>()}),
+                                             Err(m) => json!({"panic": m}) }}));
+                    }
+                }
+            }
+            nodes_seen = nodes_seen.max(canon.len());
+        }
+    }
+    println!("{}", json!({"vectors": t.vectors, "steps": t.steps, "configs": configs, "mismatches": t.mismatches, "bad": t.bad, "distinct_functions": nodes_seen}));
+}
+
 pub fn replay_stressvec(args: &Args) {
     use rsdd::builder::sdd::SemanticSddBuilder;
     let text = std::fs::read_to_string(args.str("in", "")).expect("read vectors");
     let nv = args.num("nv", 6) as usize;
     let vecs: Vec<Value> = text.lines().map(|l| serde_json::from_str(l).unwrap()).collect();
+    let which = args.str("which", "sem");
+    if which != "sem" {
+        return stress_canonical(args, &vecs, nv, &which);
+    }
     let mut t = Tally { vectors: vecs.len(), steps: 0, mismatches: 0, bad: vec![] };
     let labels: Vec<VarLabel> = (0..nv).map(VarLabel::new_usize).collect();
     let mut configs = 0;
